@@ -24,7 +24,7 @@ RULE = ("24 (cooler, option) points that converge quickly: (a) EVERY chunksize 1
         "weights within 1e-9 relative of the baseline run AND of ref_balance, scale/var within 1e-6, `converged` equal. Non-trivial: "
         ">=2 spans or a non-default map. Distinct by construction.")
 BOUNDS = {"quick": "schedule deviation bound 1 on 6 points; ref agreement on 6 coolers x 144 option points",
-          "thorough": "schedule deviation bound 2 on 12 points; ref agreement on 18 coolers x 144 points"}
+          "thorough": "schedule deviation bound 2 (2 and 3 spans; bound 1 for 4 spans) on 8 points; ref agreement on 18 coolers x 144 points"}
 ASSUMPTIONS = ["runs in which the reference sees a sweep with |var - tol| < 1e-6 tol are numerically undecidable (which sweep stops first) and set aside (counted)",
                "the documented procedure is the reference model with the implementation's diagonal convention (finding F14 is C10's) and cweights in trans mode (F15 is C10's)"]
 EXPECT_CLASSES = {"*": ["chunksize", "map:virtual-imap_unordered", "schedule", "visit-once", "ref-agreement", "real-pool"]}
@@ -38,7 +38,7 @@ def units(tier):
     for p in range(len(POINTS)):
         yield {"leg": "chunksize", "p": p}
         yield {"leg": "maps", "p": p}
-    for p in (range(0, 24, 2) if th else (0, 5, 10, 14, 19, 20)):
+    for p in (range(0, 24, 3) if th else (0, 5, 10, 14, 19, 20)):
         for k in (2, 3):
             for kind in ("imap_unordered", "imap", "map+lock"):
                 yield {"leg": "sched", "p": p, "spans": k, "kind": kind}
@@ -224,9 +224,9 @@ class _Fixed(sched.Choices):
 
 def _sched(R, p, k, tier, only, kinds=("imap_unordered", "imap", "map+lock")):
     import cooler.parallel as Pm
-    bound = 2 if tier == "thorough" else 1
+    bound = 2 if (tier == "thorough" and k <= 3) else 1      # 4 spans: 24 orders x lazy|eager per call - deviation bound 1 in both tiers
     clr, A, chrom_of, o = point(p)
-    o["max_iters"] = 8        # bounds the number of choice points (map calls) of one execution whether or not it converges
+    o["max_iters"] = 8 if k <= 2 or tier != "thorough" else 5        # bounds the number of choice points (map calls) of one execution whether or not it converges
     nnz = int(clr.info["nnz"])
     cs = -(-nnz // k)
     R.add("states")
